@@ -96,7 +96,7 @@ func (z *recRasterizer) Draw(r image.Rectangle, src image.Image, sp image.Point)
 		if g, ok := src.(*render.Gradient); ok {
 			var parts []string
 			for _, p := range z.pixels {
-				r, gg, b, a := g.At(p[0], p[1]).RGBA()
+				r, gg, b, a := g.At(sp.X+p[0], sp.Y+p[1]).RGBA()
 				parts = append(parts, fmt.Sprintf("%04x%04x%04x%04x", r, gg, b, a))
 			}
 			z.atOut = append(z.atOut, strings.Join(parts, ","))
